@@ -73,8 +73,12 @@ def check(scratch, a, t0):
             pf += literal_forms(fk, profile, qs, timeout_ms)
         info["paths"][profile] = npaths
         log("  [%s] %d folder/run-time path pairs, %d obligations so far, %d candidate findings" % (profile, npaths, qs.obligations, len(pf)))
+        # boundary probes: the obligation `literal-loads` is decided on a CONTRACT of make_<kind> (std's FromStr); the real
+        # make_<kind> is exercised here on the literals at the edge of each kind, produced by the real folder
+        pf += boundary_probes(profile)
         # native confirmation: real folder (compiler crate) and real run time (bytecode crate) on the witness
         confirm(pf, nat, natc, release)
+        pf = [f for f in pf if not (getattr(f, "probe", False) and not f.confirmed)]
         findings += pf
     return report(a, findings, qs, info, t0)
 
@@ -334,6 +338,23 @@ def int_eq(kind, val, v128):
     if bits == 128:
         return val == v128
     return z3.SignExt(128 - bits, val) == v128
+
+
+def boundary_probes(profile):
+    import struct
+    fb = lambda x: struct.unpack("<Q", struct.pack("<d", x))[0]
+    probes = [("sub", ("Int", "Int"), [0x80000001, 1]), ("mul", ("Int", "Int"), [0xC0000000, 2]), ("shl", ("Int", "Int"), [1, 31]), ("add", ("Int", "Int"), [0x7FFFFFFE, 1]),
+              ("sub", ("BigInt", "BigInt"), [(1 << 127) + 1, 1]), ("add", ("BigInt", "BigInt"), [(1 << 127) - 2, 1]), ("sub", ("Byte", "Byte"), [5, 5]), ("add", ("Byte", "Byte"), [254, 1]),
+              ("negate", ("Int",), [0x7FFFFFFF]), ("negate", ("BigInt",), [(1 << 127) - 1]), ("mul", ("Float", "Float"), [fb(1e308), fb(10.0)]), ("sub", ("Float", "Float"), [fb(0.0), fb(0.0)]),
+              ("mul", ("Float", "Float"), [fb(-1.0), fb(0.0)]), ("div", ("Float", "Float"), [fb(1.0), fb(3.0)])]
+    out = []
+    for op, kinds, vals in probes:
+        f = Q.Finding("C06", op, ",".join(kinds), "folded-literal-unloadable", profile, [(kinds[i], vals[i]) for i in range(len(kinds))],
+                      "the literal the real folder produces for this boundary expression is not accepted by the real make_<kind> (boundary probe)")
+        f.native_op = "I:" + op
+        f.probe = True
+        out.append(f)
+    return out
 
 
 def confirm(findings, nat, natc, release):
